@@ -1,7 +1,8 @@
 (** C07 — kernel virtual-region reservations never overlap and never wrap.
     Statements only; every proof is [exact <lemma from Vmm/RegionProofs.v>]. *)
 From Coq Require Import NArith List.
-From FF Require Import Lib.Word Gen.Consts_mm_vmm Vmm.Region Vmm.RegionProofs.
+From Coq Require Import String.
+From FF Require Import Lib.Word Lib.GoOps Gen.Consts_mm_vmm Gen.Trans_mm_vmm Vmm.Region Vmm.RegionProofs Vmm.RegionTrans.
 Import ListNotations.
 Local Open Scope N_scope.
 
@@ -77,3 +78,21 @@ Theorem C07_map_fail_stops :
     map_loop page frame flags count (Some k) = (consecutive page frame flags (k + 1), false).
 Proof. exact map_loop_fail. Qed.
 Print Assumptions C07_map_fail_stops.
+
+(** The tie to the source, by translation: the model of EarlyReserveRegion is equal to the Gallina term
+    that gen/gotrans regenerates from kernel/mm/vmm/addr_space.go on every run (new cursor, returned
+    address, error), for all 64-bit cursors and sizes; likewise mm.PageFromAddress / mm.FrameFromAddress. *)
+Theorem C07_model_is_translation :
+  forall last size, size < two64 -> last < two64 ->
+    go_vmm_EarlyReserveRegion last size =
+      match early_reserve last size with
+      | (l', Some a) => (l', a, None)
+      | (l', None) => (l', 0, Some "errEarlyReserveNoSpace"%string)
+      end.
+Proof. exact early_reserve_is_translation. Qed.
+Print Assumptions C07_model_is_translation.
+
+Theorem C07_page_of_addr_is_translation :
+  forall a, a < two64 -> go_mm_PageFromAddress a = page_of_addr a /\ go_mm_FrameFromAddress a = page_of_addr a.
+Proof. exact page_of_addr_is_translation. Qed.
+Print Assumptions C07_page_of_addr_is_translation.
